@@ -49,7 +49,8 @@ class PointwiseAffineTransform(Transform):
         else:
             # When log_abs_scale is a scalar, we use n*log_abs_scale, which is more
             # numerically accurate than \sum_1^n log_abs_scale.
-            return self._log_abs_scale * torch.Size(batch_shape).numel()
+            # (sum() drops singleton dimensions of a one-element scale such as shape (1, 1, 1))
+            return self._log_abs_scale.sum() * torch.Size(batch_shape).numel()
 
     def forward(self, inputs: Tensor, context=Optional[Tensor]) -> Tuple[Tensor]:
         batch_size, *batch_shape = inputs.size()
